@@ -256,6 +256,67 @@ def r04_6(ctx, counts) -> RuleResult:
     return res
 
 
+def r04_7(ctx, counts) -> RuleResult:
+    """comment text never reaches the tokenizer"""
+    model = ctx.model
+    res = RuleResult(
+        'R04.7', 'COMMENTS-BEFORE-TOKENS',
+        'An XPath 2.0+ comment is lexical whitespace whatever it contains. The tokenizer is one '
+        'regular expression over the raw text: a quote inside a comment opens a string literal '
+        'that swallows the `:)`, `::)` is read as `::` `)`. Skipping the tokens between `(:` and '
+        '`:)` (the advance() override) therefore cannot be exact; the parser class that knows '
+        'comments (XPath2Parser) overrides parse() and hands to the base parse() not its raw '
+        '`source` parameter but the result of a call that takes it (the comment-blanking pass), '
+        'and that pass tracks string literals (it compares characters with both quote '
+        'characters). `(: it\'s :) 1 + (: it\'s :) 2` evaluated to 2.')
+    mod = model.module('elementpath.xpath2.xpath2_parser')
+    cls = mod.classes.get('XPath2Parser')
+    if cls is None:
+        raise AnalysisError('XPath2Parser vanished')
+    methods = {f.name: f for f in mod.functions.values() if f.cls is cls}
+    parse = methods.get('parse')
+    n = 1
+    if parse is None:
+        res.instances.append('XPath2Parser.parse: not overridden')
+        res.fail(finding('R04.7', None, cls.node, 'no comment pass before the tokenizer',
+                         'XPath2Parser does not override parse(): the raw source, comments '
+                         'included, is tokenized and the comment content is skipped token by '
+                         'token (a quote or `::)` inside a comment breaks the expression)',
+                         module=mod))
+        counts['comment_pass'] = 0
+        return res
+    src = parse.params()[1]
+    supers = [c for c in walk_local(parse.node) if isinstance(c, ast.Call)
+              and isinstance(c.func, ast.Attribute) and c.func.attr == 'parse'
+              and 'super' in stmt_text(c.func.value)]
+    if not supers:
+        raise AnalysisError('XPath2Parser.parse: no call of the base parse()')
+    ok = True
+    for c in supers:
+        a = c.args[0] if c.args else None
+        passes = isinstance(a, ast.Call) and any(isinstance(y, ast.Name) and y.id == src
+                                                 for y in ast.walk(a))
+        helper = None
+        if passes:
+            hname = dotted(a.func).split('.')[-1]
+            helper = methods.get(hname) or mod.toplevel_function(hname)
+        quotes = helper is not None and {"'", '"'} <= {
+            ch for y in ast.walk(helper.node) if isinstance(y, ast.Constant)
+            and isinstance(y.value, str) for ch in y.value if ch in '\'"'}
+        res.instances.append(f'{parse.key}: base parse() receives `{stmt_text(a)[:40]}`; '
+                             f'pre-pass tracks string literals: {bool(quotes)}')
+        if passes and quotes:
+            res.ok()
+        else:
+            ok = False
+            res.fail(finding('R04.7', parse, c, 'raw source tokenized',
+                             f'`{stmt_text(c)[:50]}` tokenizes the text with its comments (or '
+                             f'after a pass that does not track string literals): the content '
+                             f'of a comment is read as tokens'))
+    counts['comment_pass'] = int(ok)
+    return res
+
+
 def run(ctx) -> dict:
     reg: RegModel = ctx.reg
     model = ctx.model
@@ -500,7 +561,8 @@ def run(ctx) -> dict:
                     f'{reg.statements_interpreted} statements, {reg.decorators_interpreted} '
                     f'decorator applications, {len(reg.semantics_checked)} REG-SEMANTICS facts')
     return {
-        'results': [r1, r2, r04_3(ctx, counts), r04_5(ctx, counts), r04_6(ctx, counts)],
+        'results': [r1, r2, r04_3(ctx, counts), r04_5(ctx, counts), r04_6(ctx, counts),
+                    r04_7(ctx, counts)],
         'counts': counts,
         'explanation':
             'The binding powers, led/nud bodies and recursive expression() right binding powers '
